@@ -110,7 +110,7 @@ fn weights(p: Profile, rng: &mut Rng) -> Vec<(K, u32)> {
             (Pin, 12), (Unpin, 10), (Reactivate, 8), (ReactAfter, 8), (Flush, 4), (Defer, 3), (New, 3), (DropRc, 3), (Store, 2), (Load, 2), (TryAdvance, 1),
         ],
         Profile::Tls => vec![
-            (Pin, 6), (Unpin, 4), (Flush, 3), (Defer, 4), (New, 8), (Clone, 2), (DropRc, 3), (Downgrade, 2), (DropW, 1), (Store, 5), (Load, 3), (Swap, 2), (Upgrade, 1), (StoreW, 1),
+            (Pin, 6), (Unpin, 4), (Flush, 3), (Reactivate, 2), (ReactAfter, 2), (Defer, 4), (TryAdvance, 1), (New, 8), (Clone, 2), (DropRc, 3), (Downgrade, 2), (DropW, 1), (Store, 5), (Load, 3), (Swap, 2), (Upgrade, 1), (StoreW, 1),
         ],
     };
     // swarm: drop a random subset of the optional kinds, jitter the rest
